@@ -1,7 +1,7 @@
 //! unit: u17
 //! properties: C17
 //! note: the per-message acceptance tests of the network graph and its staleness pruning: a channel_update / node_announcement replaces stored information only with a strictly newer timestamp, an update above the channel's capacity (or above 21e6 BTC, or for another chain) is refused, and pruning drops exactly the directions older than two weeks and the channels left without a current direction
-//! trusted: R15 (deep slices): NetworkGraph::update_channel_internal, update_node_from_announcement_intern and remove_stale_channels_and_tracking_with_time work on IndexedMaps behind RwLocks with signature checks through secp256k1; the unit extracts, on every run and verbatim, (a) the body of the closure check_update_latest, (b) the body of the closure check_msg_sanity (its two calls of check_update_latest get the message as an explicit argument), (c) the chain-hash test and the MAX_VALUE_MSAT test at the top of update_channel_internal, (d) the timestamp test of the node announcement, (e) the per-channel body of the pruning loop (`scids_to_remove.insert(*scid)` becomes setting a flag); (f) pre_channel_announcement_validation_check with the map lookup replaced by its result as a parameter (R5); (g) verify_channel_announcement / verify_node_announcement whole, with the function-local macros expanded by rule (R8): `secp_verify_sig!(ctx, m, s, k, _)` -> `match ctx.verify_ecdsa(m, s, k) { Ok(_) => {}, Err(_) => return Err(..) }` and `get_pubkey_from_node_id!(n, _)` -> the external_body pubkey_from_node_id(n) with `?`-style early return, `hash_to_message!(message_sha256d_hash(..))` -> an uninterpreted hash of the contents; verify_ecdsa is external_body over the uninterpreted sig_valid; (h) the choice of the signing node of a channel_update (`.as_slice()` dropped, R5); (i) the replace-or-refuse test of add_channel_between_nodes; map lookups, storing the new information, removing channels from the node table and the order-independence of the whole graph are dropped and not claimed
+//! trusted: R15 (deep slices): NetworkGraph::update_channel_internal, update_node_from_announcement_intern and remove_stale_channels_and_tracking_with_time work on IndexedMaps behind RwLocks with signature checks through secp256k1; the unit extracts, on every run and verbatim, (a) the body of the closure check_update_latest, (b) the body of the closure check_msg_sanity (its two calls of check_update_latest get the message as an explicit argument), (c) the chain-hash test and the MAX_VALUE_MSAT test at the top of update_channel_internal, (d) the timestamp test of the node announcement, (e) the per-channel body of the pruning loop (`scids_to_remove.insert(*scid)` becomes setting a flag); (f) pre_channel_announcement_validation_check with the map lookup replaced by its result as a parameter (R5); (g) verify_channel_announcement / verify_node_announcement whole, with the function-local macros expanded by rule (R8): `secp_verify_sig!(ctx, m, s, k, _)` -> `match ctx.verify_ecdsa(m, s, k) { Ok(_) => {}, Err(_) => return Err(..) }` and `get_pubkey_from_node_id!(n, _)` -> the external_body pubkey_from_node_id(n) with `?`-style early return, `hash_to_message!(message_sha256d_hash(..))` -> an uninterpreted hash of the contents; verify_ecdsa is external_body over the uninterpreted sig_valid; (h) the choice of the signing node of a channel_update (`.as_slice()` dropped, R5); (i) the replace-or-refuse test of add_channel_between_nodes; (j) the recently-removed test of update_channel_from_unsigned_announcement_intern (the two tracking maps are stubs with a ghost key set); map lookups, storing the new information, removing channels from the node table and the order-independence of the whole graph are dropped and not claimed
 //! trusted: env: ChannelInfo {one_to_two, two_to_one, capacity_sats, announcement_received_time}, ChannelUpdateInfo {last_update}, UnsignedChannelUpdate {chain_hash, timestamp, channel_flags, htlc_maximum_msat}, NodeAnnouncementInfo {last_update} are field skeletons; ChainHash is an opaque identity; LightningError loses its text and action (R8)
 use vstd::prelude::*;
 verus! {
@@ -303,6 +303,27 @@ pub struct Amount {}
     utxo_value.is_some()
 //@with
     utxo_value.is_none()
+//@end
+
+// (j) channels and nodes reported permanently failed stay out of the graph while their removal is being tracked
+pub struct TrackedSet<K> { pub s: Ghost<Set<K>> }
+impl<K> TrackedSet<K> { #[verifier::external_body] pub fn contains_key(&self, k: &K) -> (r: bool) ensures r == self.s@.contains(*k) { unimplemented!() } }
+//@extract lightning/src/routing/gossip.rs :: impl NetworkGraph :: fn update_channel_from_unsigned_announcement_intern
+//@strip msgs
+//@slice R15
+    let removed_channels = self.removed_channels.lock().unwrap(); let removed_nodes = self.removed_nodes.lock().unwrap(); if $c:cond { return Err($e); }
+//@with
+    fn announcement_names_nothing_removed(msg: &UnsignedChannelAnnouncement, removed_channels: &TrackedSet<u64>, removed_nodes: &TrackedSet<NodeId>) -> Result<(), LightningError> {
+        if $c { return Err(LightningError { err: (), action: () }); }
+        Ok(())
+    }
+//@ret r
+//@ensures P C17 an-announcement-naming-a-channel-or-either-node-that-was-reported-permanently-failed-is-refused-while-the-removal-is-tracked
+    r is Ok <==> (!removed_channels.s@.contains(msg.short_channel_id) && !removed_nodes.s@.contains(msg.node_id_1) && !removed_nodes.s@.contains(msg.node_id_2)),
+//@mutant second_node_not_looked_up_among_the_removed_nodes
+    || removed_nodes.contains_key(&msg.node_id_2)
+//@with
+    || removed_nodes.contains_key(&msg.node_id_1)
 //@end
 }
 fn main() {}
